@@ -2093,6 +2093,9 @@ def _contains(token: TokenT, left: object, right: object) -> bool:
     if isinstance(left, str):
         return _str(right) in left
     if isinstance(left, Collection):
+        if hasattr(right, "__liquid__"):
+            right = right.__liquid__()
+
         try:
             return right in left
         except TypeError as err:
